@@ -23,9 +23,11 @@ type histChecker struct {
 	acked      map[string]bool // strings.Join(args) of acknowledged changing writes
 	pendingOps []*Op
 	curConn    string
-	cmpValid   bool
-	cmpDigest  uint64
-	cmpEntries int
+	// tolerateUndef: log entries from these connections may be outside the model
+	tolerateUndef func(conn string) bool
+	cmpValid      bool
+	cmpDigest     uint64
+	cmpEntries    int
 }
 
 func newHistChecker(w *World, inst *Inst, initial *Model, class string) *histChecker {
@@ -74,11 +76,15 @@ func (hc *histChecker) grantAt(step int) *grantEvent {
 
 func (hc *histChecker) onEntry(e *lmEntry, before, after *Model) {
 	w := hc.w
+	g := hc.grantAt(e.step)
 	if e.res.undef {
+		if hc.tolerateUndef != nil && g != nil && hc.tolerateUndef(g.conn) {
+			w.stat("check.unmodelled_entries_from_fuzzed_connections", 1)
+			return
+		}
 		w.harnessErr("log entry outside the modelled fragment: %s", clipStr(strings.Join(e.args, " "), 200))
 		return
 	}
-	g := hc.grantAt(e.step)
 	if g != nil && (g.role == "cmd" || g.role == "luacall") {
 		e.conn = g.conn
 	}
